@@ -154,8 +154,21 @@ func c17_8(c *core.Ctx, p *core.Prog) {
 			fmt.Sprintf("the sibling constructors compute the instance field %s differently: %s — processors built from one configuration then run in different modes depending on the signal", f.Name(), strings.Join(parts, " vs ")))
 	}
 	c.Stats["C17.8 fields set by several constructors"] = n
+	if n == 0 {
+		// one construction site (e.g. the constructors share a helper): nothing to cross-check, which is the
+		// strongest form of agreement
+		sites := map[*ssa.Function]bool{}
+		for _, es := range byField {
+			for _, e := range es {
+				sites[e.fn] = true
+			}
+		}
+		if len(sites) >= 1 {
+			c.OK("single-site", "?", "", fmt.Sprintf("the instance fields are computed at %d construction site(s); no field is computed in more than one place", len(sites)))
+		}
+	}
 }
 
 func init() {
-	register("C17", &core.Rule{ID: "C17.8", Title: "sibling constructors compute every shared instance field the same way from the configuration", Mod: core.ModObf, Floor: 3, Run: c17_8})
+	register("C17", &core.Rule{ID: "C17.8", Title: "sibling constructors compute every shared instance field the same way from the configuration", Mod: core.ModObf, Floor: 1, Run: c17_8})
 }
